@@ -129,8 +129,7 @@ def work_tier(bins, seed, n):
         v["distance"] = rng.choice([None, 0, 1, 5])
         if rng.random() < 0.5:
             v["pre_release"] = None
-        if rng.random() < 0.5:
-            v["post"] = None
+        v["post"] = rng.choice([None, None, 0, 0, 1, 7])
         text = ron.zerv_to_ron(base_schema, v)
         # metamorphic partner: same deciding state, every other variable re-drawn
         v2 = objgen.rand_vars(rng, ascii_only=False)
